@@ -524,7 +524,22 @@ EmailVerifyEnd(h, c, e) ==
        ELSE Redirect(PutS(DelS(h, "tfaTok"), "tfaAuthed", TRUE), IF e.kind = "totp" THEN "totpSetup" ELSE "smsSetup")
 
 \* application route behind authboss.Middleware2 -> lock.Middleware -> confirm.Middleware
+\* lock.Middleware -> confirm.Middleware used on their own: they load the session user themselves
+\* and, as documented, panic when there is none to load
+BareProbe(h, c, e) ==
+  LET uid == CurrentUserID(h)
+      known == uid # NONE /\ uid \in Pids /\ h.db[uid].ex
+  IN  IF ~Has(c, "lock") /\ ~Has(c, "confirm")
+      THEN [Respond(h, "ok", NONE) EXCEPT !.ran = TRUE, !.seenUser = IF known THEN uid ELSE NONE,
+              !.seenKeys = {k \in SessKeys \ {"oRm", "oRedir"} : h.rs[k] # EmptySess[k]}]
+      ELSE IF ~known THEN Respond(h, "panic", NONE)
+      ELSE IF Has(c, "lock") /\ Locked(h.db[uid], h.now) THEN Redirect(h, "lockNotOK")
+      ELSE IF Has(c, "confirm") /\ ~h.db[uid].conf THEN Redirect(h, "confirmNotOK")
+      ELSE [Respond(h, "ok", NONE) EXCEPT !.ran = TRUE, !.seenUser = uid,
+              !.seenKeys = {k \in SessKeys \ {"oRm", "oRedir"} : h.rs[k] # EmptySess[k]}]
+
 Probe(h, c, e) ==
+  IF e.k = "bare" THEN BareProbe(h, c, e) ELSE
   LET m == AuthMW(h, c.mwReqs \in {1, 3}, c.mwReqs \in {2, 3}) IN
   IF ~m.ok THEN Refuse(h, c)
   ELSE IF Has(c, "lock") /\ Locked(h.db[m.uid], h.now) THEN Redirect(h, "lockNotOK")
@@ -577,7 +592,7 @@ Request(S, c, e) ==
       hf == IF h.err /\ h.class = "none"
             THEN [h EXCEPT !.class = IF c.errWrites THEN "error500" ELSE "errorSilent"]
             ELSE h
-      flush == hf.class # "errorSilent"
+      flush == hf.class \notin {"errorSilent", "panic"}
   IN  [st |-> [S EXCEPT !.db = hf.db, !.rm = hf.rm, !.iss = hf.iss, !.scPhone = hf.scPhone,
                         !.sess[e.b] = IF flush THEN hf.ps ELSE @,
                         !.cookie[e.b] = IF flush THEN hf.pc ELSE @],
